@@ -404,6 +404,27 @@ def conversion_matrix(ck, qr, numpy):
             return o.get_reorganization_energy()
         return w, rd
 
+    def acc_state_coupling(via):
+        """coupling between two two-exciton states of a trimer, (1,0,1) and
+        (0,1,1): the resonance coupling of molecules 0 and 1"""
+        def w(v):
+            with qr.energy_units("int"):
+                a = qr.Aggregate([qr.Molecule([0.0, 1.0]),
+                                  qr.Molecule([0.0, 1.1]),
+                                  qr.Molecule([0.0, 1.2])])
+            a.set_resonance_coupling(0, 1, v)
+            a.build(mult=2)
+            return a
+
+        def rd(o):
+            sts = {tuple(int(x) for x in st.elsignature): (k, st)
+                   for (k, st) in o.elstates(mult=2)}
+            (ka, sa), (kb, sb) = sts[(1, 0, 1)], sts[(0, 1, 1)]
+            if via == "coupling":
+                return o.coupling(sa, sb)
+            return o.get_electronic_Hamiltonian().data[ka, kb]
+        return w, rd
+
     def acc_convert():
         return None, None
 
@@ -413,7 +434,11 @@ def conversion_matrix(ck, qr, numpy):
                      resonance_coupling=acc_coupling(),
                      hamiltonian_data=acc_hamiltonian(),
                      built_hamiltonian=acc_built_hamiltonian(),
-                     corfce_reorg=acc_reorg())
+                     corfce_reorg=acc_reorg(),
+                     twoexciton_state_coupling=acc_state_coupling("coupling"),
+                     electronic_hamiltonian_twoexciton=acc_state_coupling(
+                         "hamiltonian"))
+    noted_nm = set()
     for name, (w, rd) in accessors.items():
         stored = {}
         for u1 in EU:
@@ -431,6 +456,20 @@ def conversion_matrix(ck, qr, numpy):
                 try:
                     with qr.energy_units(u2):
                         got = float(numpy.real(rd(obj)))
+                except ZeroDivisionError as e:
+                    if u2 != "nm":
+                        raise
+                    # a wavelength for a vanishing energy (here: the zero
+                    # couplings between unrelated states that the accessor
+                    # converts on its way) is undefined; the scalar
+                    # conversion refuses it
+                    if (name, "nm0") not in noted_nm:
+                        noted_nm.add((name, "nm0"))
+                        ck.note("accessor %s under nm: conversion of a zero "
+                                "energy to a wavelength refused "
+                                "(ZeroDivisionError); not a conversion of "
+                                "the supplied quantity" % name)
+                    continue
                 except Exception as e:
                     ck.violation("conversion-exact", "accessor:%s:read:%s" %
                                  (name, u2), dict(accessor=name, u1=u1, u2=u2,
